@@ -44,11 +44,26 @@ def plan(tier, seed):
 
 def required(tier):
     return {"alone_vs_joint_columns": 100, "subset_permutation_columns": 60, "assemble_haplotype_containment_checked": 30,
-            "pool_read_matrix_checked": 30, "pool_vs_merged_records": 30, "bam_order_runs": 16, "sample_in_two_pools_runs": 8, "datasets_with_shared_bam": 4, "pool_files_with_interleaved_pools": 4, "datasets_with_per_sample_inbreeding": 4, "datasets_with_report_fields": 6}
+            "pool_read_matrix_checked": 30, "pool_vs_merged_records": 30, "bam_order_runs": 16, "sample_in_two_pools_runs": 8, "datasets_with_shared_bam": 4, "pool_files_with_interleaved_pools": 4, "datasets_with_per_sample_inbreeding": 4, "datasets_with_report_fields": 6,
+            "datasets_with_per_sample_temperatures": 4, "datasets_with_sampler_options": 6}
 
 
-def argv(ds, prog, bams, hap=None, ploidy_file=None, extra=()):
+def argv(ds, prog, bams, hap=None, ploidy_file=None, extra=(), sel=None):
     a = [prog]
+    if sel is not None:
+        # per-program extras of this dataset; the per-sample temperature file may only name samples of the run
+        if prog == "assemble":
+            extra = list(extra) + list(getattr(ds, "asm_extra", ()))
+            lad = [(s, getattr(ds, "temps", {}).get(s)) for s in sel]
+            if any(t for _, t in lad):
+                path = os.path.join(ds.root, "temps_%s.txt" % "_".join(sel))
+                with open(path, "w") as fh:
+                    for s, t in lad:
+                        if t:
+                            fh.write("\t".join([s] + [repr(x) for x in t]) + "\n")
+                extra += ["--mcmc-temperatures", path]
+        elif prog == "call":
+            extra = list(extra) + list(getattr(ds, "call_extra", ()))
     if prog == "assemble":
         a += ["--targets", ds.bed, "--variants", ds.vcf, "--reference", ds.fasta, "--report", "AFP"]
     else:
@@ -130,6 +145,25 @@ def run_shard(tier, seed, spec, col):
         ds.report = [None, ["GP"], ["GL"], ["AFP"], ["GP", "GL", "AFP", "ACP"]][int(rng.integers(5))]
         if ds.report:
             col.count("datasets_with_report_fields")
+        # sampler options that are per sample (temperature ladders of different lengths; some samples left at the default)
+        # or that select other sampler paths
+        ds.temps, ds.asm_extra, ds.call_extra = {}, [], []
+        if rng.random() < 0.5:
+            ladders = [[0.2, 0.5], [0.6], [0.1, 0.3, 0.6, 1.0], None]
+            for s in ds.samples:
+                ds.temps[s] = ladders[int(rng.integers(len(ladders)))]
+            if not any(ds.temps.values()):
+                ds.temps[ds.samples[0]] = [0.5]
+            if len({repr(v) for v in ds.temps.values()}) == 1:
+                ds.temps[ds.samples[-1]] = [0.35, 0.7]
+            col.count("datasets_with_per_sample_temperatures")
+        if rng.random() < 0.6:
+            ds.asm_extra = [[["--mcmc-fix-homozygous", "0.9"], ["--mcmc-fix-homozygous", "1.0"]][int(rng.integers(2))],
+                            ["--mcmc-recombination-step-probability", "0.3", "--mcmc-dosage-step-probability", "0.6", "--mcmc-partial-dosage-step-probability", "0.2"],
+                            ["--mcmc-chains", "3", "--mcmc-llk-cache-threshold", "0"],
+                            ["--haplotype-posterior-threshold", "0.05"]][int(rng.integers(4))]
+            ds.call_extra = [["--mcmc-chains", "3"], ["--mcmc-chain-incongruence-threshold", "0.5"], []][int(rng.integers(3))]
+            col.count("datasets_with_sampler_options")
         # haplotype VCF from truth
         recs = []
         for L in ds.loci:
@@ -145,7 +179,7 @@ def run_shard(tier, seed, spec, col):
         bam_of = {s: ds.sample_bam[s] for s in ds.samples}
         rep = {"dataset_seed": [seed, spec["shard"], dI]}
         for prog in ("call-exact", "call", "assemble"):
-            out, exc = cli.run_inproc(argv(ds, prog, bam_arg(ds, root, ds.samples, bam_of), hv))
+            out, exc = cli.run_inproc(argv(ds, prog, bam_arg(ds, root, ds.samples, bam_of), hv, sel=ds.samples))
             if exc is not None:
                 col.violation("program-fails-on-valid-input", "%s (all samples) raised %r" % (prog, exc), dict(rep, program=prog))
                 continue
@@ -159,7 +193,7 @@ def run_shard(tier, seed, spec, col):
             for sel in selections:
                 case = dict(rep, program=prog, selection=sel)
                 col.case(case, nontrivial=len(sel) >= 2)
-                out2, exc2 = cli.run_inproc(argv(ds, prog, bam_arg(ds, root, sel, bam_of), hv))
+                out2, exc2 = cli.run_inproc(argv(ds, prog, bam_arg(ds, root, sel, bam_of), hv, sel=sel))
                 if exc2 is not None:
                     col.violation("program-fails-on-valid-input", "%s on samples %s raised %r" % (prog, sel, exc2), case)
                     continue
